@@ -17,32 +17,116 @@ UNDECIDED = [
 TRUSTED = ["CPython ast parser", "str slicing: consecutive slices text[a:b], text[b:c] of a partition [0, .., len] concatenate to text", "re.match(pattern, text, pos) anchors at pos"]
 
 
+def _unpack_map(fn_node, source: str):
+    """names bound by `a, b, c = <source>` -> index"""
+    for x in walk_local(fn_node):
+        if isinstance(x, ast.Assign) and isinstance(x.targets[0], ast.Tuple) and norm(x.value) == source:
+            return {e.id: i for i, e in enumerate(x.targets[0].elts) if isinstance(e, ast.Name)}
+    return {}
+
+
 def r2_1(ctx):
-    ctx.rule("R2.1", "Text.divide partitions the text: the pieces are text[start:end] over consecutive pairs of [0, *offsets, len(text)] of the plain string, so for in-range non-decreasing offsets they concatenate to the original - no character dropped, duplicated or reordered by the division itself")
+    from ..astutil import inline, single_defs
+    ctx.rule("R2.1", "Text.divide partitions the text: the pieces are text[start:end] over consecutive pairs of [0, *offsets, len(text)] of the plain string, so for in-range non-decreasing offsets they concatenate to the original - no character dropped, duplicated or reordered by the division itself (decided on the closed form of the expressions, temporaries inlined)")
     f = ctx.repo.fn("text:Text.divide")
-    src = norm(f.node)
-    checks = [
-        ("text = self.plain", "pieces are cut from the plain string"),
-        ("text_length = len(text)", "the last boundary is the text's length"),
-        ("divide_offsets = [0, *_offsets, text_length]", "boundaries are 0, the offsets in the given order, and the end"),
-        ("line_ranges = list(zip(divide_offsets, divide_offsets[1:]))", "ranges are consecutive boundary pairs"),
-        ("_offsets = list(offsets)", "offsets are used in the order given"),
-    ]
-    for frag, what in checks:
-        ctx.check(frag in src, f.fq, frag, f.where, what, f"Text.divide no longer has `{frag}`: the pieces are not the consecutive slices of the plain text between the given offsets (characters can be lost, repeated or reordered when wrapping)")
-    ok = False
+    defs = single_defs(f.node)
+    PLAIN = ("self.plain", "str(self)")
+
+    def is_bounds(e):
+        if not (isinstance(e, ast.List) and len(e.elts) == 3):
+            return "boundaries are not [0, *offsets, len(text)]"
+        a, b, c = e.elts
+        if not (isinstance(a, ast.Constant) and a.value == 0):
+            return "first boundary is not 0"
+        if not (isinstance(b, ast.Starred) and norm(b.value) in ("list(offsets)", "offsets", "tuple(offsets)")):
+            return f"middle boundaries `{norm(b)}` are not the given offsets in the given order"
+        if not (isinstance(c, ast.Call) and norm(c.func) == "len" and len(c.args) == 1 and norm(c.args[0]) in PLAIN):
+            return f"last boundary `{norm(c)}` is not the length of the plain text"
+        return None
+
+    def is_ranges(e):
+        if isinstance(e, ast.Call) and norm(e.func) in ("list", "tuple") and len(e.args) == 1:
+            e = e.args[0]
+        if not (isinstance(e, ast.Call) and norm(e.func) == "zip" and len(e.args) == 2):
+            return "ranges are not zip(bounds, bounds[1:])"
+        a, b = e.args
+        if not (isinstance(b, ast.Subscript) and isinstance(b.slice, ast.Slice) and norm(b.value) == norm(a) and b.slice.lower is not None and norm(b.slice.lower) == "1" and b.slice.upper is None and b.slice.step is None):
+            return f"ranges pair `{short(a)}` with `{short(b)}`, not each boundary with its successor"
+        return is_bounds(a)
+
+    # the piece generator: <Text>(T[s:e], ...) for s, e in R
+    found = None
     for x in ast.walk(f.node):
-        if isinstance(x, ast.GeneratorExp) and norm(x.generators[0].iter) == "line_ranges":
-            tv = [norm(t) for t in x.generators[0].target.elts] if isinstance(x.generators[0].target, ast.Tuple) else []
+        if isinstance(x, (ast.GeneratorExp, ast.ListComp)) and len(x.generators) == 1 and isinstance(x.generators[0].target, ast.Tuple) and len(x.generators[0].target.elts) == 2:
             el = x.elt
-            if isinstance(el, ast.Call) and el.args and len(tv) == 2 and norm(el.args[0]) == f"text[{tv[0]}:{tv[1]}]" and not x.generators[0].ifs:
-                ok = True
-    ctx.check(ok, f.fq, "_Text(text[start:end], ...) for start, end in line_ranges", f.where, "one piece per range, holding exactly that slice", "the new lines are not built as text[start:end] for every range in order")
+            if isinstance(el, ast.Call) and el.args and isinstance(el.args[0], ast.Subscript) and isinstance(el.args[0].slice, ast.Slice):
+                found = x
+    if found is None:
+        raise AnchorVanished("Text.divide: the comprehension building one Text per range was not found")
+    gen = found.generators[0]
+    tv = [norm(t) for t in gen.target.elts]
+    sl = found.elt.args[0]
+    why = is_ranges(inline(gen.iter, defs))
+    ctx.check(why is None, f.fq, norm(inline(gen.iter, defs)), f.where, "ranges are the consecutive pairs of [0, *offsets, len(plain)]",
+              f"Text.divide: {why}: the pieces are not the consecutive slices of the plain text between the given offsets (characters can be lost, repeated or reordered when wrapping)")
+    ok = norm(inline(sl.value, defs)) in PLAIN and sl.slice.lower is not None and sl.slice.upper is not None and norm(sl.slice.lower) == tv[0] and norm(sl.slice.upper) == tv[1] and sl.slice.step is None and not gen.ifs
+    ctx.check(ok, f.fq, short(found), f.where, "one piece per range, holding exactly that slice of the plain text", "the new lines are not built as plain[start:end] for every range in order")
     # span clipping is relative to the piece start
-    ctx.check("_Span(span_start - start, span_end - start, span_style)" in src, f.fq, "line_span offsets", f.where, "clipped spans are re-based to the start of their line", "clipped spans are not shifted by the start offset of their line: styles land on the wrong characters after wrapping")
+    line_loops = [x for x in walk_local(f.node) if isinstance(x, ast.For) and any(norm(inline(n, defs)) == norm(inline(gen.iter, defs)) for n in ast.walk(x.iter) if isinstance(n, ast.Name))]
+    ok = False
+    detail = "?"
+    for lp in line_loops:
+        starts = [norm(t.elts[0]) for t in ast.walk(lp.target) if isinstance(t, ast.Tuple) and len(t.elts) == 2 and all(isinstance(e, ast.Name) for e in t.elts)]
+        um = {}
+        for x in ast.walk(lp):
+            if isinstance(x, ast.Assign) and isinstance(x.targets[0], ast.Tuple) and len(x.targets[0].elts) == 3 and isinstance(x.value, ast.Name):
+                um = {e.id: i for i, e in enumerate(x.targets[0].elts) if isinstance(e, ast.Name)}
+        for c in ast.walk(lp):
+            if isinstance(c, ast.Call) and norm(expand_alias(c.func, alias_map(f.node))) in ("Span", "_Span") and len(c.args) == 3:
+                a0, a1, a2 = c.args
+                detail = short(c)
+                if (isinstance(a0, ast.BinOp) and isinstance(a0.op, ast.Sub) and isinstance(a1, ast.BinOp) and isinstance(a1.op, ast.Sub) and starts and norm(a0.right) == starts[-1] and norm(a1.right) == starts[-1]
+                        and um.get(norm(a0.left)) == 0 and um.get(norm(a1.left)) == 1 and um.get(norm(a2)) == 2):
+                    ok = True
+    ctx.check(ok, f.fq, detail, f.where, "clipped spans are re-based to the start of their line", "clipped spans are not shifted by the start offset of their line: styles land on the wrong characters after wrapping")
     sp = ctx.repo.fn("text:Span.split")
-    s2 = norm(sp.node)
-    ctx.check("span1 = Span(start, min(end, offset), style)" in s2 and "span2 = Span(span1.end, end, style)" in s2, sp.fq, "Span.split", sp.where, "a span is cut at the offset into two abutting parts with the same style", "Span.split no longer cuts a span into two abutting parts at the offset")
+    sd = single_defs(sp.node)
+    um = _unpack_map(sp.node, "self")
+    fields = ["start", "end", "style"]
+
+    def canon(e):
+        e = inline(e, sd)
+
+        class T(ast.NodeTransformer):
+            def visit_Name(self, node):
+                if node.id in um:
+                    return ast.Attribute(value=ast.Name(id="self", ctx=ast.Load()), attr=fields[um[node.id]], ctx=ast.Load())
+                return node
+
+            def visit_Attribute(self, node):
+                node = self.generic_visit(node)
+                if isinstance(node.value, ast.Call) and norm(node.value.func) == "Span" and len(node.value.args) == 3 and node.attr in fields:
+                    return node.value.args[fields.index(node.attr)]
+                return node
+
+            def visit_Call(self, node):
+                node = self.generic_visit(node)
+                if norm(node.func) == "min" and len(node.args) == 2:
+                    node.args = sorted(node.args, key=norm)
+                return node
+        return T().visit(e)
+    rets = [r for r in walk_local(sp.node) if isinstance(r, ast.Return) and isinstance(r.value, ast.Tuple) and len(r.value.elts) == 2 and not (isinstance(r.value.elts[1], ast.Constant) and r.value.elts[1].value is None)]
+    ok = len(rets) == 1
+    if ok:
+        a, b = (canon(e) for e in rets[0].value.elts)
+        cut = ("min(offset, self.end)", "offset")
+        ok = (isinstance(a, ast.Call) and isinstance(b, ast.Call) and len(a.args) == 3 and len(b.args) == 3
+              and norm(a.args[0]) == "self.start" and norm(a.args[1]) in cut and norm(a.args[2]) == "self.style"
+              and norm(b.args[0]) in cut and norm(b.args[1]) == "self.end" and norm(b.args[2]) == "self.style")
+    ctx.check(ok, sp.fq, short(rets[0]) if rets else "Span.split", sp.where, "a span is cut at the offset into two abutting parts with the same style", "Span.split no longer cuts a span into two abutting parts (start..offset, offset..end, same style) at the offset")
+    guards = [norm(x.test) for x in walk_local(sp.node) if isinstance(x, ast.If) and any(isinstance(b, ast.Return) for b in x.body)]
+    ctx.check(any("offset < self.start" in g_ or "self.start > offset" in g_ for g_ in guards) and any("offset >= self.end" in g_ or "self.end <= offset" in g_ for g_ in guards), sp.fq, "; ".join(guards), sp.where,
+              "offsets outside the span leave it whole", "Span.split no longer returns the span unsplit for offsets outside [start, end)")
 
 
 def r2_2(ctx):
@@ -69,18 +153,32 @@ def r2_2(ctx):
         ctx.check(w is not None and norm(w) == "width", f.fq, short(dl[0]), f"{m.relpath}:{dl[0].lineno}", "break computation uses the requested width", "divide_line is not given the requested width")
         fo = kwarg(dl[0], "fold")
         ctx.check(fo is not None and norm(fo) == "wrap_overflow == 'fold'", f.fq, short(dl[0]), f"{m.relpath}:{dl[0].lineno}", "long words are folded exactly for overflow='fold'", "fold is not tied to overflow == 'fold'")
-    src = norm(lp)
-    ctx.check(src.index("expand_tabs(") < src.index("divide_line(") if "expand_tabs(" in src and "divide_line(" in src else False, f.fq, "expand_tabs before divide_line", f"{m.relpath}:{lp.lineno}", "tabs are expanded before widths are measured", "tabs are not expanded before the break offsets are computed")
+    # tabs are expanded (statement order in the loop body) before the break offsets are measured
+    def stmt_index(pred):
+        for i, b in enumerate(lp.body):
+            if any(pred(c) for c in ast.walk(b)):
+                return i
+        return None
+    i_tabs = stmt_index(lambda c: isinstance(c, ast.Call) and isinstance(c.func, ast.Attribute) and c.func.attr == "expand_tabs" and norm(c.func.value) == var)
+    i_div = stmt_index(lambda c: c is dl[0]) if dl else None
+    ctx.check(i_tabs is not None and i_div is not None and i_tabs < i_div, f.fq, "expand_tabs before divide_line", f"{m.relpath}:{lp.lineno}", "tabs are expanded before widths are measured", "tabs are not expanded before the break offsets are computed")
+    # names: the divided lines of this paragraph, and the list that is returned
+    nl = None
+    for a in ast.walk(lp):
+        if dv and isinstance(a, ast.Assign) and a.value is dv[0] and isinstance(a.targets[0], ast.Name):
+            nl = a.targets[0].id
+    rets = [r for r in walk_local(f.node) if isinstance(r, ast.Return)]
+    out = norm(rets[0].value) if len(rets) == 1 and isinstance(rets[0].value, ast.Name) else None
     # every produced line is truncated to the width, inside the per-paragraph loop, before it is collected
     trunc_ok = False
     for b in lp.body:
-        if isinstance(b, ast.For) and norm(b.iter) == "new_lines":
+        if isinstance(b, ast.For) and nl is not None and norm(b.iter) == nl:
             if any(isinstance(c, ast.Call) and isinstance(c.func, ast.Attribute) and c.func.attr == "truncate" and norm(c.func.value) == norm(b.target) and c.args and norm(c.args[0]) == "width" for c in ast.walk(b)):
                 trunc_ok = True
-    ext_idx = [i for i, b in enumerate(lp.body) if "lines.extend(new_lines)" in norm(b)]
-    ctx.check(trunc_ok and bool(ext_idx), f.fq, "for line in new_lines: line.truncate(width, ...)", f"{m.relpath}:{lp.lineno}", "the lines of every paragraph are truncated to the width before being collected",
+    ext_idx = [i for i, b in enumerate(lp.body) if isinstance(b, ast.Expr) and isinstance(b.value, ast.Call) and norm(b.value.func) == f"{out}.extend" and b.value.args and norm(b.value.args[0]) == nl]
+    ctx.check(trunc_ok and bool(ext_idx), f.fq, f"for line in {nl}: line.truncate(width, ...)", f"{m.relpath}:{lp.lineno}", "the lines of every paragraph are truncated to the width before being collected",
               "the final truncate-to-width pass does not run over the lines of every paragraph (it is outside the per-paragraph loop or missing): lines of earlier paragraphs keep over-long words / trailing cells and exceed the width")
-    ctx.check("lines.extend(new_lines)" in src and "return lines" in norm(f.node), f.fq, "lines.extend(new_lines)", f.where, "all produced lines are returned in order", "wrap does not collect every produced line in order")
+    ctx.check(bool(ext_idx) and out is not None, f.fq, f"{out}.extend({nl})", f.where, "all produced lines are returned in order", "wrap does not collect every produced line, unconditionally and in order, into the list it returns")
 
 
 def r2_3(ctx):
@@ -156,9 +254,28 @@ def r2_4(ctx):
         ctx.check(len(c.args) >= 2 and norm(c.args[0]) == "word" and norm(c.args[1]) == "width" and pos is not None and norm(pos) == "line_position", f.fq, short(c), f"{m.relpath}:{c.lineno}",
                   "the word is chopped to the width, continuing at the current line position", "chop_cells is not called as chop_cells(word, width, position=line_position)")
     # words(): consecutive matches, each anchored where the previous one ended
+    from ..astutil import inline, single_defs
     w = ctx.repo.fn("_wrap:words")
-    s = norm(w.node)
-    ctx.check("word_match = re_word.match(text, end)" in s and "yield (start, end, word)" in s and "word_match = re_word.match(text, position)" in s, w.fq, "words()", w.where, "words are consecutive regex matches (each starts where the previous ended)", "words() no longer yields consecutive matches anchored at the previous end")
+    matches = [c for c in walk_local(w.node) if isinstance(c, ast.Call) and isinstance(c.func, ast.Attribute) and c.func.attr == "match" and norm(c.func.value) == "re_word"]
+    mvars = {norm(a.targets[0]) for a in walk_local(w.node) if isinstance(a, ast.Assign) and a.value in matches}
+    span_unpack = [a for a in walk_local(w.node) if isinstance(a, ast.Assign) and isinstance(a.targets[0], ast.Tuple) and len(a.targets[0].elts) == 2 and isinstance(a.value, ast.Call) and isinstance(a.value.func, ast.Attribute) and a.value.func.attr == "span" and norm(a.value.func.value) in mvars]
+    ok = len(mvars) == 1 and len(span_unpack) == 1 and len(matches) >= 2
+    if ok:
+        s_name, e_name = (norm(e) for e in span_unpack[0].targets[0].elts)
+        mv = next(iter(mvars))
+        sd = single_defs(w.node)
+        pos = []
+        for c in matches:
+            ok = ok and len(c.args) == 2 and norm(c.args[0]) == "text"
+            if len(c.args) == 2:
+                pos.append(norm(inline(c.args[1], sd, keep=(s_name, e_name))))
+        ok = ok and sorted(pos) == sorted(["0"] + [e_name] * (len(matches) - 1))
+        ys = [y for y in walk_local(w.node) if isinstance(y, ast.Yield)]
+        ok = ok and len(ys) == 1 and isinstance(ys[0].value, ast.Tuple) and len(ys[0].value.elts) == 3
+        if ok:
+            a, b, c3 = ys[0].value.elts
+            ok = norm(a) == s_name and norm(b) == e_name and norm(inline(c3, sd, keep=(s_name, e_name))) in (f"{mv}.group(0)", f"{mv}.group()", f"text[{s_name}:{e_name}]")
+    ctx.check(ok, w.fq, "words()", w.where, "words are consecutive regex matches (each anchored where the previous ended), yielded with their own span", "words() no longer yields consecutive matches anchored at the previous end together with their span: characters between words are skipped or offsets no longer index the text")
 
 
 def r2_5(ctx):
@@ -168,17 +285,30 @@ def r2_5(ctx):
 
 def r2_6(ctx):
     ctx.rule("R2.6", "only trailing whitespace is removed at line ends: rstrip_end crops at most the length of the trailing-whitespace regex match (\\\\s+$) and at most the excess; Text.rstrip is str.rstrip")
+    from ..astutil import inline, single_defs
     f = ctx.repo.fn("text:Text.rstrip_end")
-    s = norm(f.node)
-    ok = "whitespace_match = _re_whitespace.search(self.plain)" in s and "whitespace_count = len(whitespace_match.group(0))" in s and "self.right_crop(min(whitespace_count, excess))" in s and "excess = text_length - size" in s
-    ctx.check(ok, f.fq, "right_crop(min(whitespace_count, excess))", f.where, "crop is bounded by the trailing whitespace run and by the excess", "rstrip_end can remove more than the trailing whitespace (or more than the excess): non-whitespace characters are dropped at line ends")
+    sd = single_defs(f.node)
+    crops = [c for c in walk_local(f.node) if isinstance(c, ast.Call) and norm(c.func) == "self.right_crop"]
+    ok = len(crops) == 1 and len(crops[0].args) == 1
+    detail = short(crops[0]) if crops else "self.right_crop(...)"
+    if ok:
+        a = inline(crops[0].args[0], sd)
+        ok = isinstance(a, ast.Call) and norm(a.func) == "min" and len(a.args) == 2
+        if ok:
+            forms = sorted(norm(x) for x in a.args)
+            ws = [x for x in forms if x in ("len(_re_whitespace.search(self.plain).group(0))", "len(_re_whitespace.search(self.plain).group())")]
+            ex = [x for x in forms if x in ("len(self) - size", "self._length - size", "len(self.plain) - size")]
+            ok = len(ws) == 1 and len(ex) == 1
+        detail = norm(a)
+    ctx.check(ok, f.fq, detail, f.where, "crop is bounded by the trailing whitespace run and by the excess", "rstrip_end can remove more than the trailing whitespace (or more than the excess): non-whitespace characters are dropped at line ends")
     import re as _re
     from .. import regexast
     m = f.module
     rx = regexast.compile_call(m.global_assign("_re_whitespace"))
     ctx.check(rx is not None and rx.args[0].value == "\\s+$", "text:_re_whitespace", rx.args[0].value if rx else "?", f.where, "the regex matches only a whitespace run at the very end", "the trailing-whitespace regex is no longer \\\\s+$")
     r = ctx.repo.fn("text:Text.rstrip")
-    ctx.check("self.plain = self.plain.rstrip()" in norm(r.node), r.fq, "self.plain = self.plain.rstrip()", r.where, "rstrip removes trailing whitespace only", "Text.rstrip is not str.rstrip of the plain text")
+    ok = any(isinstance(x, ast.Assign) and norm(x.targets[0]) == "self.plain" and isinstance(x.value, ast.Call) and norm(x.value.func) == "self.plain.rstrip" and not x.value.args and not x.value.keywords for x in walk_local(r.node))
+    ctx.check(ok, r.fq, "self.plain = self.plain.rstrip()", r.where, "rstrip removes trailing whitespace only", "Text.rstrip is not str.rstrip of the plain text")
 
 
 def r2_7(ctx):
